@@ -353,6 +353,18 @@ func (g *group) restorePristine(shards []int) error {
 	return nil
 }
 
+// removeExtras deletes files in the drive folders that are not the shard files found at set-up
+// (a repair that writes into the wrong place must not leak into the next case).
+func (g *group) removeExtras() {
+	for i, dir := range g.dirs {
+		for _, f := range filesUnder(dir) {
+			if f != g.paths[i] {
+				os.Remove(f)
+			}
+		}
+	}
+}
+
 func allShards(n int) []int {
 	s := make([]int, n)
 	for i := range s {
@@ -449,6 +461,7 @@ func (g *group) runRead(c Case) (Result, error) {
 	res.Outcome, res.Msg, res.GotLen = get(g.store, g.id, g.data)
 	if c.Repair {
 		touched = allShards(len(g.paths))
+		g.removeExtras()
 	}
 	return res, g.restorePristine(touched)
 }
@@ -472,6 +485,7 @@ func (g *group) runRepair(c Case, pos int, prog *os.File) (Result, error) {
 			return res, err
 		}
 		res.NoRepairOutcome, _, _ = get(g.storeNoR, g.id, g.data)
+		g.removeExtras()
 		return res, g.restorePristine(all)
 	}
 	res.Unrepaired = g.diffFromPristine()
@@ -497,6 +511,7 @@ func (g *group) runRepair(c Case, pos int, prog *os.File) (Result, error) {
 			}
 		}
 	}
+	g.removeExtras()
 	return res, g.restorePristine(all)
 }
 
